@@ -264,6 +264,10 @@ func genC06(r *rand.Rand, tier string) []Case {
 					c.Steps = append(c.Steps, dbStep{Op: "put", K: k, V: v})
 				}
 			}
+			if t > 0 && r.Intn(3) == 0 {
+				// Delete accepts the empty key (Put does not): its tombstone reaches the tables and is read back as a nil key
+				c.Steps = append(c.Steps, dbStep{Op: []string{"del", "delb"}[r.Intn(2)], K: []byte{}})
+			}
 			c.Steps = append(c.Steps, dbStep{Op: "rotate"})
 		}
 		c.Steps = append(c.Steps, dbStep{Op: "compact"})
